@@ -136,18 +136,24 @@ def d18_2(ctx):
     fn = ctx.model.func(f"{SLC}:parse_tag")
     rx = _regexes(ctx)
     n_apps = 0
+    # a pattern may be applied through a loop variable that runs over a tuple of patterns (`for r in (ST_RE, A_RE): r.search(tag)`)
+    alias = {}
+    for lp in walk(fn.node):
+        if isinstance(lp, ast.For) and isinstance(lp.target, ast.Name) and isinstance(lp.iter, (ast.Tuple, ast.List)) and lp.iter.elts and all(isinstance(x, ast.Name) and x.id in rx for x in lp.iter.elts):
+            alias[lp.target.id] = [x.id for x in lp.iter.elts]
+    used = set()
     for n in walk(fn.node):
-        if isinstance(n, ast.Call) and isinstance(n.func, ast.Attribute) and isinstance(n.func.value, ast.Name) and n.func.value.id in rx and n.func.attr in ("search", "match", "fullmatch"):
-            n_apps += 1
-            name = n.func.value.id
-            pat, node = rx[name]
-            _, _, a0, a1 = _group_digit_bounds(pat)
-            how = n.func.attr
-            whole = how == "fullmatch" or (how == "match" and a1) or (how == "search" and a0 and a1)
-            ctx.check(whole, ckey(fn, f"apply:{name}"), n, f"{name}.{how}: the whole address must match", f"{name}.{how}(tag) accepts addresses with extra leading/trailing characters (e.g. a 4-digit element is read as its first 3 digits)", method=how, anchored=[a0, a1])
+        if isinstance(n, ast.Call) and isinstance(n.func, ast.Attribute) and isinstance(n.func.value, ast.Name) and (n.func.value.id in rx or n.func.value.id in alias) and n.func.attr in ("search", "match", "fullmatch"):
+            for name in alias.get(n.func.value.id, [n.func.value.id]):
+                n_apps += 1
+                used.add(name)
+                pat, node = rx[name]
+                _, _, a0, a1 = _group_digit_bounds(pat)
+                how = n.func.attr
+                whole = how == "fullmatch" or (how == "match" and a1) or (how == "search" and a0 and a1)
+                ctx.check(whole, ckey(fn, f"apply:{name}"), n, f"{name}.{how}: the whole address must match", f"{name}.{how}(tag) accepts addresses with extra leading/trailing characters (e.g. a 4-digit element is read as its first 3 digits): the pattern is not anchored at both ends")
     if n_apps < 7:
         ctx.undecided(ckey(fn, "apply"), fn.node, f"only {n_apps} pattern applications found")
-    used = {n.func.value.id for n in walk(fn.node) if isinstance(n, ast.Call) and isinstance(n.func, ast.Attribute) and isinstance(n.func.value, ast.Name) and n.func.value.id in rx}
     ctx.check(used == set(rx), ckey(fn, "all-patterns-used"), fn.node, "every address pattern is tried", f"patterns never applied: {sorted(set(rx) - used)}")
 
 
